@@ -1,7 +1,11 @@
 ------------------------------ MODULE MC_Opt_T ------------------------------
 EXTENDS OptCheck
+(* thorough tier: everything of the quick family, 5-operation shapes with flexible operations on 2 machines,   *)
+(* all 3-operation shapes on 3 machines, 4-operation shapes with three durations, and the 6-operation shape   *)
+(* 2+2+2 with single machines.  (A larger family - 3+3 and three durations on six operations - did not finish *)
+(* within 50 minutes on 16 cores.)                                                                           *)
 Fam == Family({<<2, 1>>, <<1, 1, 1>>, <<2, 2>>, <<2, 2, 1>>, <<3, 2>>}, MSeqs(2), {1, 2})
        \cup Family({<<2, 1>>, <<1, 1, 1>>}, MSeqs(3), {1, 2, 3})
        \cup Family({<<3, 1>>, <<2, 1, 1>>}, MSeqs(2), {1, 2, 3})
-       \cup Family({<<2, 2, 2>>, <<3, 3>>}, SingleMSeqs(2), {1, 2, 3})
+       \cup Family({<<2, 2, 2>>}, SingleMSeqs(2), {1, 2})
 =============================================================================
